@@ -51,9 +51,10 @@ func (c11) Gen(rng *simrt.Rand, tier string, run int) interface{} {
 		}
 	default: // (c) single-fault enumeration
 		p.Batch = "fault"
-		if rng.Chance(1, 2) {
-			p.PriorLen = int64(n) * model.BlockSize
-		}
+		nb := int64(n)
+		// every prior-image class: a failing ftruncate/fstat must not turn into
+		// a disk of the wrong size or with altered retained blocks
+		p.PriorLen = []int64{-1, -1, nb * model.BlockSize, nb * model.BlockSize, 0, nb, 4097, nb*model.BlockSize - 1, nb*model.BlockSize + 1, (nb + 3) * model.BlockSize}[rng.Intn(10)]
 		ops := genSeqOps(rng, n, 1+rng.Intn(10), 0x3000, false)
 		p.Rounds = []Round{{N: n, Ops: ops}}
 	}
